@@ -201,6 +201,39 @@ impl TreeSys for Fam {
     }
 }
 
+/// long series (17..=64 elements: beyond the point where the standard selection routine stops sorting
+/// small slices completely), structured shapes plus two modular permutations, with null patterns
+fn long_series(thorough: bool) -> Vec<(String, Vec<X>)> {
+    let lens: Vec<usize> = if thorough { vec![17, 18, 23, 24, 33, 40, 64] } else { vec![17, 24] };
+    let mut out = vec![];
+    for len in lens {
+        for (label, x) in rollcheck::structured_shapes(len, false) {
+            out.push((format!("{label}/{len}"), x));
+        }
+        for k in [7usize, 11] {
+            let m = if len % k == 0 { len + 1 } else { len };
+            let perm: Vec<X> = (0..len).map(|i| Some(((i * k) % m) as f64)).collect();
+            let mut holes = perm.clone();
+            for i in (2..len).step_by(5) {
+                holes[i] = None;
+            }
+            out.push((format!("perm({k})/{len}"), perm));
+            out.push((format!("perm({k})+nulls/{len}"), holes));
+        }
+    }
+    out
+}
+
+fn check_long(label: &str, x: &[X], alpha: &[X], ctx: &mut Ctx) {
+    let fam = "order-long";
+    ctx.fam(fam).states += 1;
+    ctx.states += 1;
+    ctx.transitions += 1;
+    ctx.nontrivial(fam, hash_bytes(label.as_bytes()));
+    check_ty::<f64>(fam, "f64", &[], x, alpha, ctx);
+    check_ty::<Option<f64>>(fam, "Option<f64>", &[], x, alpha, ctx);
+}
+
 fn main() {
     let run = Run::from_args("C12");
     let fam = Fam { alpha: vec![None, Some(0.0), Some(1.0), Some(2.0), Some(3.0)], max_len: run.pick(6, 8) };
@@ -210,12 +243,19 @@ fn main() {
             std::process::exit(2)
         });
         let mut ctx = Ctx::new();
-        fam.check_word(&syms_from_json(&stored["case"]["word"]), &mut ctx);
+        if stored["case"]["family"] == "order-long" {
+            let x: Vec<X> = stored["case"]["series"].as_array().map(|a| a.iter().map(|v| v.as_f64()).collect()).unwrap_or_default();
+            check_long("replay", &x, &fam.alpha, &mut ctx);
+        } else {
+            fam.check_word(&syms_from_json(&stored["case"]["word"]), &mut ctx);
+        }
         std::process::exit(finish_replay(&run, &stored, ctx));
     }
-    let total = explore_tree(&fam, run.threads);
+    let mut total = explore_tree(&fam, run.threads);
+    let long = long_series(!run.quick());
+    total.merge(par_items(&long, run.threads, |(label, x), ctx| check_long(label, x, &fam.alpha, ctx)));
     let meta = Meta {
-        rule: "history tree of every word over {null,0,1,2,3}; at each word: vquantile on a q-grid (incl. j/(n-1) and j/(n-1)+-1e-12) x 4 interpolation methods, vmedian, vpercentile_of (every score of the alphabet, 0.5, 2.5, null x 3 methods), vrank (pct x rev), vpartition / varg_partition (k in 0..=len+1 x sort x rev), element types f64 / Option<f64> / i32 / Option<i32>; oracle = sort the non-null values and index. Non-trivial = word with a non-null element.".into(),
+        rule: "history tree of every word over {null,0,1,2,3}; at each word: vquantile on a q-grid (incl. j/(n-1) and j/(n-1)+-1e-12) x 4 interpolation methods, vmedian, vpercentile_of (every score of the alphabet, 0.5, 2.5, null x 3 methods), vrank (pct x rev), vpartition / varg_partition (k in 0..=len+1 x sort x rev), element types f64 / Option<f64> / i32 / Option<i32>; oracle = sort the non-null values and index. Plus the same operations on long structured series (17..=64 elements: ramps, saws, plateaus, zigzags, modular permutations, with null blocks and periodic null patterns). Non-trivial = word with a non-null element.".into(),
         bounds: json!({"alphabet": json_word(&fam.alpha), "L": fam.max_len, "k": "0..=len+1", "q_grid": "0,.1,.2,.25,.3,1/3,.5,2/3,.7,.75,.9,1, j/(n-1), j/(n-1)+-1e-12"}),
         assumptions: vec!["fractional index within 1e-9 of an integer: either neighbouring reading accepted (DESIGN 5.5)".into(),
             "unsorted partitions compared as multisets; arg-partition index sets with ties accepted when the values form the right multiset (DESIGN 5.6)".into()],
